@@ -2,7 +2,7 @@ from typing import *
 
 import attr
 
-from dlms_cosem import security
+from dlms_cosem import a_xdr, security
 from dlms_cosem.protocol.xdlms.base import AbstractXDlmsApdu
 from dlms_cosem.protocol.xdlms.conformance import Conformance
 
@@ -67,7 +67,11 @@ class InitiateResponse(AbstractXDlmsApdu):
     def to_bytes(self) -> bytes:
         # quick and dirty encoding
         out = bytearray()
-        out.append(self.negotiated_quality_of_service)
+        if self.negotiated_quality_of_service:
+            out.append(0x01)
+            out.append(self.negotiated_quality_of_service)
+        else:
+            out.append(0x00)
         out.append(self.negotiated_dlms_version_number)
         out.extend(b"\x5f\x1f\x04")
         out.extend(self.negotiated_conformance.to_bytes())
@@ -91,7 +95,7 @@ class GlobalCipherInitiateResponse(AbstractXDlmsApdu):
         if tag != cls.TAG:
             raise ValueError(f"Tag is not correct. Should be {cls.TAG} but got {tag}")
 
-        length = data.pop(0)
+        length, data = a_xdr.decode_variable_integer(data)
         if length != len(data):
             raise ValueError(f"Octetstring is not of correct length")
 
@@ -111,6 +115,6 @@ class GlobalCipherInitiateResponse(AbstractXDlmsApdu):
         octet_string_data.extend(self.security_control.to_bytes())
         octet_string_data.extend(self.invocation_counter.to_bytes(4, "big"))
         octet_string_data.extend(self.ciphered_text)
-        out.append(len(octet_string_data))
+        out.extend(a_xdr.encode_variable_integer(len(octet_string_data)))
         out.extend(octet_string_data)
         return bytes(out)
